@@ -924,6 +924,7 @@ func main() {
 		}(b)
 	}
 	wg.Wait()
+	geometric(res, root)
 	if res.GetCount("tripcounts_judged") < 200 || res.GetCount("source_loops_identified") < 100 {
 		res.Broken = fmt.Sprintf("too little observed: %d trip counts judged, %d loops identified", res.GetCount("tripcounts_judged"), res.GetCount("source_loops_identified"))
 	}
